@@ -20,7 +20,7 @@ RULE = ('TLC checks the snapshot discipline transcribed from rdb.rs (spec/impl/I
         'buffered blocks, the final flush or a synced tail fail with EFBIG). (ii) schedules: '
         'a BGSAVE is parked at each per-key step (before get / after get / after ttl / after the sorted-set length) while a client '
         'grows, shrinks, deletes, replaces or re-deadlines that key, then released; SAVE racing a parked BGSAVE; the produced dump '
-        'is loaded by restarting on it and the dataset is dumped; the spec keeps for every key the entries it held during the '
+        'is loaded by restarting on it and the dataset is dumped; the same windows with the auto-save monitor as the trigger (server started with the rule `save 1 1`), a failing auto-save and the one after it; the spec keeps for every key the entries it held during the '
         'save (BgTrack) and TLC requires the loaded entry (value AND deadline together) to be one of them. (iii) every prefix '
         'and, per byte, several corruptions of valid dumps are loaded by the real loader in a child process under RLIMIT_AS '
         'with a counting allocator: outcome must be an error or a key-wise equal partial load, bounded allocation and time, no '
@@ -243,6 +243,29 @@ def bgsave_schedules(ctx):
             s.close(c)
             c = restart_and_dump(ctx, srv, s, tr, dbs=(0,))
             cases += 1
+        # the save thread is held for a while between reading a key (value + remaining time) and writing it: the deadline in
+        # the dump is the key's deadline, not one moved by the time the thread spent in between
+        for point in ('rdb_after_ttl', 'rdb_after_get'):
+            for cid in list(s.clients):
+                s.close(cid)
+            tr.emit({'k': 'reset'})
+            s.note('bgsave/deadline-does-not-move/%s' % point)
+            c = s.open()
+            s.cmd(c, [b'FLUSHALL'])
+            s.cmd(c, B('SET', 'k', 'v', 'PX', 100000))
+            srv.ctl.cmd('ARM ' + point)
+            tr.emit({'k': 'bgstart'})
+            s.cmd(c, [b'BGSAVE'])
+            if srv.ctl.cmd('WAIT %s 1 3000' % point) == '1':
+                forced += 1
+            time.sleep(0.15)
+            srv.ctl.cmd('DISARM ' + point)
+            done = wait_bgsave(srv)
+            tr.emit({'k': 'chk', 'name': 'bgsave_finished', 'ok': 1 if done else 0})
+            tr.emit({'k': 'bgdone'})
+            s.close(c)
+            c = restart_and_dump(ctx, srv, s, tr, dbs=(0,))
+            cases += 1
         # SAVE racing a parked BGSAVE (both use the same temporary file name)
         for cid in list(s.clients):
             s.close(cid)
@@ -293,6 +316,84 @@ def bgsave_schedules(ctx):
     return cases
 
 
+# -- (ii') the same windows with the AUTO-SAVE monitor as the trigger ---------------------------------------
+def autosave_schedules(ctx):
+    """A server started with the rule `save 1 1`: the monitor thread starts the background save by itself once a change
+    is a second old.  The save is parked at a per-key step (same sync points as BGSAVE), the key is changed, the save is
+    released; the dump it leaves must load and hold, for every key, an entry the key had during the save.  Then: a failing
+    auto-save (injected write failure) leaves the previous dump and does not block later saves; auto-saves keep coming."""
+    cases = 0
+    forced = 0
+    srv = ctx.new_server(name='auto', autosave='1,1')
+    tr = ctx.new_trace('autosave')
+    s = Session(srv, tr, reply_timeout=10.0)
+    dump = os.path.join(srv.dir, 'dump.rdb')
+    combos = [('string', 'rdb_after_get', 'replace-ttl'), ('zset', 'rdb_zset_after_len', 'shrink'), ('list', 'rdb_before_get', 'delete'),
+              ('hash', 'rdb_after_ttl', 'grow'), ('string', 'rdb_after_ttl', 'expire'), ('zset', 'rdb_after_get', 'rescore')]
+    if ctx.quick:
+        combos = combos[ctx.seed % 2::2]
+    try:
+        for ty, point, mname in combos:
+            create, muts = TYPES[ty]
+            mut = dict(muts)[mname]
+            for cid in list(s.clients):
+                s.close(cid)
+            tr.emit({'k': 'reset'})
+            s.note('autosave/%s/%s/%s' % (ty, point, mname))
+            c = s.open()
+            srv.ctl.cmd('ARM ' + point)          # armed first: whichever save starts next parks here
+            s.cmd(c, [b'FLUSHALL'])
+            tr.emit({'k': 'bgstart'})             # from here on every value of a key is a candidate for the snapshot
+            s.cmd(c, create)
+            if point == 'rdb_zset_after_len':
+                s.cmd(c, [b'MSET'] + [x for i in range(8) for x in (b'pad%d' % i, b'v')])
+            reached = srv.ctl.cmd('WAIT %s 1 4000' % point) == '1'
+            if reached:
+                forced += 1
+            for a in mut:
+                s.cmd(c, a)
+            srv.ctl.cmd('DISARM ' + point)
+            done = wait_bgsave(srv)
+            tr.emit({'k': 'chk', 'name': 'autosave_started_by_the_monitor', 'ok': 1 if reached else 0})
+            tr.emit({'k': 'chk', 'name': 'autosave_finished', 'ok': 1 if done else 0})
+            tr.emit({'k': 'bgdone'})
+            s.close(c)
+            srv.kill()          # before the monitor can start another save over the mutated data
+            c = restart_and_dump(ctx, srv, s, tr, dbs=(0,))
+            cases += 1
+        # a failing auto-save: the previous dump stays, the flag clears, the next auto-save works
+        for cid in list(s.clients):
+            s.close(cid)
+        tr.emit({'k': 'reset'})
+        s.note('autosave/failing-write')
+        c = s.open()
+        s.cmd(c, [b'FLUSHALL'])
+        s.cmd(c, B('SET', 'kept', '1'))
+        s.cmd(c, [b'SAVE'])
+        good = open(dump, 'rb').read()
+        srv.ctl.cmd('RDBFAIL 3')
+        s.cmd(c, B('SET', 'changed', '2'))
+        time.sleep(2.6)                          # at least one auto-save attempt, which fails at its 4th write
+        now = open(dump, 'rb').read() if os.path.exists(dump) else b''
+        tr.emit({'k': 'chk', 'name': 'dump_untouched_after_failed_autosave', 'ok': 1 if now == good else 0})
+        tr.emit({'k': 'chk', 'name': 'flag_cleared_after_failed_autosave', 'ok': 1 if wait_bgsave(srv) else 0})
+        srv.ctl.cmd('RDBFAIL -1')
+        s.cmd(c, B('SET', 'changed', '3'))
+        end = time.monotonic() + 5.0
+        while time.monotonic() < end and (open(dump, 'rb').read() if os.path.exists(dump) else b'') == good:
+            time.sleep(0.05)
+        later = open(dump, 'rb').read() if os.path.exists(dump) else b''
+        tr.emit({'k': 'chk', 'name': 'a_later_autosave_works', 'ok': 1 if later != good and wait_bgsave(srv) else 0})
+        cases += 1
+    except ServerDied:
+        tr.emit({'k': 'crash', 'status': srv.exit_status()})
+    s.close_all()
+    ctx.validate_segments(tr, 'autosave')
+    ctx.extra_cov['autosave_windows_forced'] = forced
+    srv.kill()
+    return cases
+
+
 # -- (iii) truncated and corrupted dumps -----------------------------------------------------------------
 def rdbload(path, timeout=20):
     try:
@@ -331,12 +432,20 @@ def corruption(ctx):
     cut_step = 1 if not ctx.quick else max(1, len(data) // 120)
     for n in range(0, len(data), cut_step):
         variants.append(('prefix%d' % n, data[:n]))
-    positions = range(len(data)) if not ctx.quick else sorted(rnd.sample(range(len(data)), min(len(data), 150)))
-    for i in positions:
-        vals = {0x00, 0xff, data[i] ^ 0x01, data[i] ^ 0x80, (data[i] + 1) & 0xff} if not ctx.quick else {0xff, data[i] ^ 0x80}
-        if i < 40 or not ctx.quick:
-            vals |= {0x80, 0x40, 0xfe, 0xfc}
-        for v in vals:
+    # every byte of the header and of the first keys gets every interesting value; beyond that a sample of positions.
+    # 0x80 / 0x81 turn a length byte into "a 32 / 64-bit length follows" (the next bytes, payload of something else, then
+    # declare gigabytes), 0xc0-0xc3 into the special encodings, 0xfa-0xff are the opcodes
+    head = 120 if ctx.quick else len(data)
+    sampled = set(range(min(head, len(data)))) | (set(rnd.sample(range(len(data)), min(len(data), 150))) if ctx.quick else set())
+    lengthy = set(rnd.sample(range(len(data)), min(len(data), 500))) if ctx.quick else set()
+    for i in sorted(sampled | lengthy):
+        if i in sampled:
+            vals = {0x00, 0xff, data[i] ^ 0x01, data[i] ^ 0x80, (data[i] + 1) & 0xff} if (not ctx.quick or i < head) else {0xff, data[i] ^ 0x80}
+            if i < head:
+                vals |= {0x80, 0x81, 0x40, 0x7f, 0xc0, 0xc1, 0xc2, 0xc3, 0xfa, 0xfb, 0xfc, 0xfd, 0xfe}
+        else:
+            vals = {0x80, 0x81}
+        for v in sorted(vals):
             if v != data[i]:
                 variants.append(('byte%d=%02x' % (i, v), data[:i] + bytes([v]) + data[i + 1:]))
     bound = 64 * len(data) + (1 << 20)
@@ -389,6 +498,7 @@ def run(ctx):
     ctx.extra_cov['os_level_fault_points'] = nf
     n1 += nf
     n2 = bgsave_schedules(ctx)
+    n2 += autosave_schedules(ctx)
     n3 = corruption(ctx)
     ctx.extra_cov['distinct_cases'] = n1 + n2 + n3
     ctx.extra_cov['fault_points'] = n1
